@@ -62,6 +62,8 @@ def reset_globals(seed: int = 0):
         pass
     random.seed(seed)
     simstore.reset_registry()
+    global ZARR_LOOP
+    ZARR_LOOP = install_deterministic_zarr_loop()  # re-installs after a fork
     ZARR_LOOP.reset_counter()
 
 
